@@ -31,6 +31,15 @@ prop("C09", "exploration",
      {"quick": {"runs": 64000, "max_secs": 120}, "thorough": {"runs": 1600000, "max_secs": 900}},
      ["the BuzHash table/seed and RollSum constants are part of the definition (copied into the reference; pinned by bitar/tests/chunking.rs)"])
 
+prop("C01", "exploration",
+     "each run draws (source, chunker configuration, compression, hash length, buffered-chunks, metadata), a writer (bita compress from a file / from stdin, bitar create_archive), "
+     "a cloner (bita clone local / HTTP, library clone local / HTTP) and, per command, a schedule of the blocking pool (eagerness 0/10/50/90/100 %, FIFO or drawn order), "
+     "read fragmentation at the syscall seam / SimSource / stdin / HTTP body. No faults. Oracle: every command succeeds; the independent decoder reads the archive, finds the true size and "
+     "Blake2b-512 and unpacks it to the source; the clone output equals the source. Non-trivial: the source has at least two chunks; distinct: by trace hash (all scheduler decisions, reads, "
+     "requests) combined with chunk count, writer and cloner.",
+     {"quick": {"runs": 24000, "max_secs": 150}, "thorough": {"runs": 700000, "max_secs": 1200}},
+     ["bitar's temporary_file_override is never used (it cannot work: DESIGN.md O1)", "the anonymous temp file of create_archive is opened by the tempfile crate through raw syscalls and is not seen by the seam"])
+
 NOT_APPLICABLE = {
     "C10": "pure function of its input: quantifies over pairs of byte strings and configurations only; given C09 (same chunks under every read schedule) there is no schedule, clock, fault, crash or interleaving for a simulator to own. The mechanism it rests on (boundary decisions depend on the trailing window alone) is checked by C09's reference chunker, which is how F5 was found.",
 }
@@ -42,3 +51,7 @@ def text(pid, technique, level_text, level_note):
 text("C09", "deterministic simulation: seeded search over read schedules (fragmentation, Pending) of a simulated source, differential against a single-read run and a closed-form reference chunker",
      "Seeded exploration: tens of thousands (quick) to millions (thorough) of (configuration, input, read schedule) triples; every run checks schedule independence, tiling, size bounds and equality with an independent non-incremental definition of the boundary rule. Sampling, not proof; small windows/inputs are hit densely.",
      "Trusted: the reference chunker in /verif (closed-form RollSum/BuzHash window hashes, its own copy of the BuzHash table), blake2; real code: bitar chunker + futures-util; stub: the byte source (SimSource).")
+
+text("C01", "deterministic simulation: seeded search over blocking-pool schedules and read fragmentations of the full compress -> clone pipeline (CLI and library, local and simulated HTTP), judged by an independent archive decoder",
+     "Seeded exploration of end-to-end round trips under every completion order of hash/compress/write tasks the scheduler can produce (from an infinitely fast to an infinitely slow pool). Found F1 and F4 before they were fixed. Sampling, not proof.",
+     "Trusted: RefFormat decoder (hand-written protobuf codec), blake2, brotli-decompressor, zstd, lzma; real: all of bitar and the CLI modules, futures-util, clap; port: tokio::fs::File; stub: blocking pool, stdin, reqwest/network.")
